@@ -168,12 +168,15 @@ def load_baseline():
 
 
 # ------------------------------------------------------------------------------------------------ small helpers
+RECORD_CTORS: set = set()        # named tuple classes of the package under analysis (filled by Normaliser._collect): building a record has no effect
+
+
 def _is_pure_call(call) -> bool:
     f = call.func
     if any(k.arg == 'out' for k in call.keywords):
         return False
     if isinstance(f, ast.Name):
-        return f.id in PURE_BUILTINS
+        return f.id in PURE_BUILTINS or f.id in RECORD_CTORS
     parts = []
     while isinstance(f, ast.Attribute):
         parts.append(f.attr)
@@ -700,6 +703,8 @@ class Normaliser:
                 rn = r.id if isinstance(r, ast.Name) else r.attr if isinstance(r, ast.Attribute) else None
                 if rn:
                     self.ret_ntype.setdefault(f.name, set()).add(rn)
+        RECORD_CTORS.clear()
+        RECORD_CTORS.update(self.ntypes)
         defs: dict[str, list] = {}
         for path, mod in self.modules.items():
             for q, f, cls in func_quals(mod.tree):
@@ -2072,6 +2077,31 @@ class Normaliser:
                         if ra and ra[0] not in ('self',) and ra[0] not in tnames(st.target):
                             bound.add(ra[0])
                     elems = norm._table_elements(st.iter, bound | tnames(st.target))
+                    if elems is not None:
+                        # guard clauses of the loop body: `if C: continue` + REST  ==  `if not C: REST`
+                        k_ = 0
+                        while k_ < len(st.body):
+                            g_ = st.body[k_]
+                            if isinstance(g_, ast.If) and not g_.orelse and len(g_.body) == 1 and isinstance(g_.body[0], ast.Continue) and k_ + 1 < len(st.body):
+                                st.body[k_:] = [ast.copy_location(ast.If(test=_negate(g_.test), body=st.body[k_ + 1:], orelse=[]), g_)]
+                                st = stmts[i]
+                                k_ = 0
+                                st.body[-1].body = st.body[-1].body  # (nested guards are handled when the inner block is visited)
+                                inner_ = st.body[-1]
+                                # descend: further guards inside the new if-body
+                                blk_ = inner_.body
+                                j_ = 0
+                                while j_ < len(blk_):
+                                    h_ = blk_[j_]
+                                    if isinstance(h_, ast.If) and not h_.orelse and len(h_.body) == 1 and isinstance(h_.body[0], ast.Continue) and j_ + 1 < len(blk_):
+                                        blk_[j_:] = [ast.copy_location(ast.If(test=_negate(h_.test), body=blk_[j_ + 1:], orelse=[]), h_)]
+                                        blk_ = blk_[-1].body
+                                        j_ = 0
+                                    else:
+                                        j_ += 1
+                                break
+                            k_ += 1
+                        body_nodes = [n for b_ in st.body for n in ast.walk(b_)]
                     def own_continue(stmts):
                         for x in stmts:
                             if isinstance(x, ast.Continue):
